@@ -67,7 +67,7 @@ end Ctx
 def blank (s : String) : Bool := trimSpaceEmpty s
 
 def isValidIbcID (s : String) (lo hi : Nat) : Bool :=
-  !blank s && !s.contains '/' && lo ≤ s.utf8ByteSize && s.utf8ByteSize ≤ hi &&
+  !blank s && !s.contains '/' && lo ≤ byteLen s && byteLen s ≤ hi &&
     s.toList.all fun c => isAlpha c || isDigit c || c == '.' || c == '_' || c == '+' || c == '-' || c == '#'
       || c == '[' || c == ']' || c == '<' || c == '>'
 
@@ -203,6 +203,14 @@ def warpRemoteTransfer (cfg : Cfg) (c : Ctx) (token : Bytes) (domain : Nat) (amo
 /-- An action controller: any function on the cached context and the shared transfer attributes. -/
 abbrev ActionCtl := Faults → Ctx → TransferAttrs → Action → Res (Ctx × TransferAttrs)
 
+/-- `FeeController.executeAction`: one bank send per positive entry, in payload order. -/
+def payFees (φ : Faults) (orb : Addr) (denom : String) : List (Bytes × Int) → Ctx → Res Ctx
+  | [], c => .ok c
+  | v :: rest, c => do
+    let c ← c.call φ "bank.SendCoins"
+    let c ← c.send orb v.1 denom v.2.toNat "feectl:send"
+    payFees φ orb denom rest c
+
 /-- `FeeController.HandlePacket`. -/
 def feeController (cfg : Cfg) : ActionCtl := fun φ c t a => do
   let infos ← match a.attrs with
@@ -212,9 +220,7 @@ def feeController (cfg : Cfg) : ActionCtl := fun φ c t a => do
   (validateFeeAttrs cfg.hrp infos).mapErr fun e => "feectl:validate:" ++ e
   let fees ← computeFees cfg.hrp t.dstAmount t.dstDenom infos { values := [], total := 0 }
   if fees.total ≥ t.dstAmount then (.err "feectl:total-exceeds" : Res Unit) else pure ()
-  let c ← fees.values.foldlM (fun (c : Ctx) (v : Bytes × Int) => do
-      let c ← c.call φ "bank.SendCoins"
-      c.send cfg.orbAddr v.1 t.dstDenom v.2.toNat "feectl:send") c
+  let c ← payFees φ cfg.orbAddr t.dstDenom fees.values c
   let t := t.setDstAmount (t.dstAmount - fees.total)
   let c ← c.emit φ "EventFeeAction"
   pure (c, t)
